@@ -37,6 +37,8 @@ struct CaseOut {
     mismatch: Option<Json>,
     panic: Option<(String, String)>,
     async_natural_ok: bool,
+    /// `required_comb_passes` of the simulator IR (>1: the schedule has backward edges)
+    comb_passes: usize,
 }
 
 fn opts(rng: &mut Rng) -> GenOpts {
@@ -46,6 +48,96 @@ fn opts(rng: &mut Rng) -> GenOpts {
         2 => GenOpts { big: 10 + rng.usize(40), ..GenOpts::default() },
         _ => GenOpts { ffs: (1, 5), ..GenOpts::default() },
     }
+}
+
+/// "Multi-pass lab" designs (every 3rd case): a chain v0 -> v1 -> ... of comb variables whose
+/// assignments are dealt out to 2-3 `always_comb` blocks, so the *blocks* depend on each other
+/// cyclically although the variables do not (a false cycle).  The comb schedule then has backward
+/// edges and a settle needs several passes (`required_comb_passes > 1`) — the one situation in which
+/// the Cranelift fallback taken while the compiled artifact answers NotReady has to do more than one
+/// evaluation pass.  DesignGen never produces it (one variable per block, topological order).
+fn multipass_design(rng: &mut Rng) -> Design {
+    let w = *rng.pick(&[8usize, 16, 24, 32, 48, 64, 65, 100]);
+    let m = 3 + rng.usize(6);
+    let nb = 2 + rng.usize(2);
+    let mut blocks: Vec<Vec<String>> = vec![vec![]; nb];
+    let rot = rng.usize(nb);
+    let mut t = String::new();
+    t.push_str("module Top (\n    i_clk: input clock,\n    i_rst: input reset,\n");
+    for j in 0..3 {
+        t.push_str(&format!("    i{j}: input logic<{w}>,\n"));
+    }
+    for j in 0..m {
+        t.push_str(&format!("    o{j}: output logic<{w}>,\n"));
+    }
+    t.push_str(&format!("    o_r: output logic<{w}>,\n) {{\n    var r0: logic<{w}>;\n"));
+    for b in 0..nb {
+        t.push_str(&format!("    var t{b}: logic<{w}>;\n"));
+    }
+    for j in 0..m {
+        t.push_str(&format!("    var v{j}: logic<{w}>;\n"));
+        let src = |rng: &mut Rng| -> String {
+            match rng.below(4) {
+                0 => "r0".to_string(),
+                n => format!("i{}", n - 1),
+            }
+        };
+        let a0 = if j == 0 { src(rng) } else { format!("v{}", j - 1) };
+        // strict rotation: a statement never reads a variable written by its own block
+        let blk = (j + rot) % nb;
+        let b = {
+            let others: Vec<usize> = (0..j).filter(|i| (i + rot) % nb != blk).collect();
+            if !others.is_empty() && rng.chance(1, 3) { format!("v{}", rng.pick(&others)) } else { src(rng) }
+        };
+        // the operand travels through the block's temporary, which is therefore written once per
+        // statement and read in between: the statements of a block must keep their text order
+        let a = format!("t{blk}");
+        let e = match rng.below(6) {
+            0 => format!("{a} + 1"),
+            1 => format!("~{a}"),
+            2 => format!("{a} + {b}"),
+            3 => format!("{a} ^ {b}"),
+            4 => format!("{a} - {b}"),
+            _ => format!("({a} & {b}) | (~{a} & i0)"),
+        };
+        blocks[blk].push(format!("        t{blk} = {a0};\n        v{j} = {e};\n"));
+    }
+    // Text order inside a block: mostly *descending* chain order — the consumer of a value that
+    // another block derives from this block's later statement comes first, and the temporary forbids
+    // moving it behind the producer: a statement-level cycle, i.e. backward edges in the schedule.
+    for blk in blocks.iter_mut() {
+        if rng.chance(3, 4) {
+            blk.reverse();
+        }
+    }
+    // text order of the blocks is random
+    let mut order: Vec<usize> = (0..nb).collect();
+    for k in (1..nb).rev() {
+        let j = rng.usize(k + 1);
+        order.swap(k, j);
+    }
+    for b in order {
+        if blocks[b].is_empty() {
+            continue;
+        }
+        t.push_str("    always_comb {\n");
+        for l in &blocks[b] {
+            t.push_str(l);
+        }
+        t.push_str("    }\n");
+    }
+    t.push_str(&format!(
+        "    always_ff {{\n        if_reset {{\n            r0 = 0;\n        }} else {{\n            r0 = r0 + v{};\n        }}\n    }}\n",
+        m - 1
+    ));
+    for j in 0..m {
+        t.push_str(&format!("    assign o{j} = v{j};\n"));
+    }
+    t.push_str("    assign o_r = r0;\n}\n");
+    let mut d = Design::from_text(&t);
+    d.features = vec!["multipass_lab".into()];
+    d.has_ff = true;
+    d
 }
 
 fn first_diff(d: &Design, a: &Trace, b: &Trace) -> Option<Json> {
@@ -58,8 +150,12 @@ fn first_diff(d: &Design, a: &Trace, b: &Trace) -> Option<Json> {
 
 fn run_case(seed: u64, i: u64, cycles: usize, n_gates: usize) -> CaseOut {
     let mut rng = Rng::for_case(seed, "C33", i);
-    let o = opts(&mut rng);
-    let d = generate(&mut rng, &o);
+    let d = if i % 3 == 2 {
+        multipass_design(&mut rng)
+    } else {
+        let o = opts(&mut rng);
+        generate(&mut rng, &o)
+    };
     let stim = stimulus(&d, &mut rng, cycles);
     let mut out = CaseOut { cycles, ..Default::default() };
     let md = default_metadata();
@@ -85,6 +181,7 @@ fn run_case(seed: u64, i: u64, cycles: usize, n_gates: usize) -> CaseOut {
     };
     out.status = "ok".into();
     let cc = Config { use_jit: true, aot_c: true, aot_c_event: true, aot_c_async: false, ..Default::default() };
+    out.comb_passes = veryl_simulator::ir::build_ir(&a.ir, d.top.as_str().into(), &cc).map(|ir| ir.required_comb_passes).unwrap_or(0);
     let mut gates: Vec<(u64, u64)> = vec![(0, 0), (NEVER, NEVER), (1, 0), (0, 1), (2, 1), (1, 3), (NEVER, 0), (0, NEVER)];
     while gates.len() < n_gates {
         let c = rng.below(2 * cycles as u64 + 2);
@@ -215,6 +312,7 @@ pub fn main(args: Args) {
         ("swap_points", 6),
         ("runs_with_fallback_then_compiled", 30),
         ("steps_compared", 3000),
+        ("designs_needing_multi_pass_settle", 5),
     ]);
 }
 
@@ -238,6 +336,10 @@ fn report(run: &Run, i: u64, n_gates: usize, r: Result<CaseOut, vcommon::pool::P
             if o.async_natural_ok {
                 run.count("natural_async_runs", 1);
             }
+            if o.comb_passes > 1 {
+                run.count("designs_needing_multi_pass_settle", 1);
+                run.seen("required_comb_passes", &o.comb_passes.to_string());
+            }
             let mut mixed = false;
             for ((gc, ge), (cb, cd, eb, ed)) in o.gates_run.iter().zip(o.swap_stats.iter()) {
                 let name = |x: u64| if x == NEVER { "never".to_string() } else { x.to_string() };
@@ -254,7 +356,7 @@ fn report(run: &Run, i: u64, n_gates: usize, r: Result<CaseOut, vcommon::pool::P
             if mixed && d.has_ff {
                 run.nontrivial(hash_str(&d.text));
             }
-            run.sample(json!({"case_index": i, "features": d.features, "gates": o.gates_run.iter().map(|(a, b)| format!("{a}/{b}")).collect::<Vec<_>>(), "design": d.text}));
+            run.sample(json!({"case_index": i, "features": d.features, "required_comb_passes": o.comb_passes, "gates": o.gates_run.iter().map(|(a, b)| format!("{a}/{b}")).collect::<Vec<_>>(), "design": d.text}));
             if let Some((loc, msg)) = &o.panic {
                 run.violation(
                     &format!("swap-panic:{loc}"),
